@@ -879,6 +879,12 @@ pub mod verif {
         RULE_LOG.with(|log| log.borrow_mut().push(entry));
     }
 
+    /// the command a key press stands for (what do_navigate_keypress hands to do_navigate_command_string)
+    pub fn key_command(key: usize, shift_key: bool, control_key: bool, alt_key: bool, meta_key: bool) -> Result<String> {
+        let (command, param) = key_press_to_command_and_param(key, shift_key, control_key, alt_key, meta_key)?;
+        return Ok(navigation_command_string(command, param).to_string());
+    }
+
     /// returns and clears the log
     pub fn take_log() -> Vec<String> {
         return RULE_LOG.with(|log| log.replace(vec![]));
